@@ -200,6 +200,41 @@ def twin_reach(sched: List[int]) -> bool:
     fp.MinGenSet([3, 5, 8, 11, 2], total=16, weight_type=int).solve()
     return True
 
+def check_search_twice(sched1: List[int], sched2: List[int]) -> bool:
+    """
+    pre: len(sched1) == 3 and len(sched2) == 3
+    pre: all(0 <= s <= 4 for s in sched1) and all(0 <= s <= 4 for s in sched2)
+    post: _
+    """
+    # the same object solved twice: whatever the first run ended with, the second run may skip only sizes the first run
+    # *proved* infeasible, and its own first status that is not 'infeasible' decides
+    _S["sched"] = sched1
+    _S["calls"] = []
+    m = fp.MinGenSet([3, 5, 8, 11, 2], total=16, weight_type=int)
+    m.solve()
+    first = list(_S["calls"])
+    undecided = None
+    for (k, code) in first:
+        if code != INF:
+            undecided = k
+            break
+    if undecided is None:
+        undecided = (first[-1][0] + 1) if first else 1
+    _S["sched"] = sched2
+    _S["calls"] = []
+    ok = m.solve()
+    exp, j = _expected()
+    if ok != exp or _solved(m) != exp:
+        return False
+    ks = [k for (k, _c) in _S["calls"]]
+    if not ks:
+        return False
+    if not (1 <= ks[0] <= undecided) or ks != list(range(ks[0], ks[0] + len(ks))):
+        return False
+    if not ok:
+        return _raises(m.get_solution)
+    return len(m.get_solution()) == _S["calls"][-1][0]
+
 check_search([1, 0, 0, 0])
 '''
 
@@ -562,6 +597,8 @@ def _diag(task, call):
     if not call:
         return "counterexample"
     fn, pos, kw = call
+    if fn == "check_search_twice":
+        return "second-solve-on-the-same-object:decision-differs-from-its-own-status-sequence"
     sched = kw.get("sched", pos[0] if pos else None)
     if task["src"] == "mingenset" and isinstance(sched, list):
         for s in sched:
